@@ -41,23 +41,23 @@ def obligations(tier):
         return c + (["reject"] if reject else [])
     for fn, tag in (("VerifC20DepthRead", "read"), ("VerifC20DepthFormat", "format")):
         if q:
-            L.append(ob("depth/%s/ops=all/shapes=all/a=10000..10001/inner=0/hole=0" % tag, P, fn, [-1, -1, 10000, 10001, "0", 0, False, False], step_limit=BIG, covers=cov([0, 1, 2])))
-            L.append(ob("depth/%s/ops=all/shape=arr/a=10000/inner=/hole=1" % tag, P, fn, [-1, 0, 10000, 10000, "", 1, False, False], step_limit=BIG, covers=cov([0], False, True)))
+            L.append(ob("depth/%s/ops=all/shapes=all/a=10000..10001/inner=0/hole=0" % tag, P, fn, [-1, -1, 10000, 10001, "0", 0, False, False], step_limit=BIG, max_seconds=2400, covers=cov([0, 1, 2])))
+            L.append(ob("depth/%s/ops=all/shape=arr/a=10000/inner=/hole=1" % tag, P, fn, [-1, 0, 10000, 10000, "", 1, False, False], step_limit=BIG, max_seconds=2400, covers=cov([0], False, True)))
         else:
             for d in (False, True):
-                L.append(ob("depth/%s/ops=all/shapes=all/a=9998..10002/inner=0/hole=0/dup=%d/fullref" % (tag, d), P, fn, [-1, -1, 9998, 10002, "0", 0, d, True], step_limit=BIG, covers=cov([0, 1, 2])))
-                L.append(ob("depth/%s/ops=all/shapes=all/a=10000..10001/inner=/hole=1/dup=%d" % (tag, d), P, fn, [-1, -1, 10000, 10001, "", 1, d, False], step_limit=BIG, covers=cov([0, 1, 2], True, True)))
-            L.append(ob("depth/%s/ops=all/shape=arr/a=9999..10001/inner=/hole=0/fullref" % tag, P, fn, [-1, 0, 9999, 10001, "", 0, False, True], step_limit=BIG, covers=cov([0])))
+                L.append(ob("depth/%s/ops=all/shapes=all/a=9998..10002/inner=0/hole=0/dup=%d/fullref" % (tag, d), P, fn, [-1, -1, 9998, 10002, "0", 0, d, True], step_limit=BIG, max_seconds=2400, covers=cov([0, 1, 2])))
+                L.append(ob("depth/%s/ops=all/shapes=all/a=10000..10001/inner=/hole=1/dup=%d" % (tag, d), P, fn, [-1, -1, 10000, 10001, "", 1, d, False], step_limit=BIG, max_seconds=2400, covers=cov([0, 1, 2], True, True)))
+            L.append(ob("depth/%s/ops=all/shape=arr/a=9999..10001/inner=/hole=0/fullref" % tag, P, fn, [-1, 0, 9999, 10001, "", 0, False, True], step_limit=BIG, max_seconds=2400, covers=cov([0])))
             for sh in (0, 1):
-                L.append(ob("depth/%s/ops=all/shape=%s/a=10000/inner=/hole=2" % (tag, SH[sh]), P, fn, [-1, sh, 10000, 10000, "", 2, False, False], step_limit=BIG, covers=cov([sh], True, True)))
-            L.append(ob("depth/%s/ops=all/shape=mix2/a=9999..10001/inner=\"a\"/hole=0/fullref" % tag, P, fn, [-1, 3, 9999, 10001, '"a"', 0, False, True], step_limit=BIG, covers=cov([3])))
+                L.append(ob("depth/%s/ops=all/shape=%s/a=10000/inner=/hole=2" % (tag, SH[sh]), P, fn, [-1, sh, 10000, 10000, "", 2, False, False], step_limit=BIG, max_seconds=2400, covers=cov([sh], True, True)))
+            L.append(ob("depth/%s/ops=all/shape=mix2/a=9999..10001/inner=\"a\"/hole=0/fullref" % tag, P, fn, [-1, 3, 9999, 10001, '"a"', 0, False, True], step_limit=BIG, max_seconds=2400, covers=cov([3])))
     # ---- depth: WriteToken pushes then one call
     if q:
-        L.append(ob("depth/write/shapes=all/a=10000..10001", P, "VerifC20DepthWrite", [-1, 10000, 10001, False], step_limit=BIG, covers=["call-accepted", "call-refused", "push-refused"]))
+        L.append(ob("depth/write/shapes=all/a=10000..10001", P, "VerifC20DepthWrite", [-1, 10000, 10001, False], step_limit=BIG, max_seconds=2400, covers=["call-accepted", "call-refused", "push-refused"]))
     else:
         for d in (False, True):
-            L.append(ob("depth/write/shapes=all/a=9997..10002/dup=%d" % d, P, "VerifC20DepthWrite", [-1, 9997, 10002, d], step_limit=BIG, covers=["call-accepted", "call-refused", "push-refused"]))
-        L.append(ob("depth/write/shape=alt-obj-first/a=9999..10001", P, "VerifC20DepthWrite", [3, 9999, 10001, False], step_limit=BIG, covers=["call-accepted", "call-refused", "push-refused"]))
+            L.append(ob("depth/write/shapes=all/a=9997..10002/dup=%d" % d, P, "VerifC20DepthWrite", [-1, 9997, 10002, d], step_limit=BIG, max_seconds=2400, covers=["call-accepted", "call-refused", "push-refused"]))
+        L.append(ob("depth/write/shape=alt-obj-first/a=9999..10001", P, "VerifC20DepthWrite", [3, 9999, 10001, False], step_limit=BIG, max_seconds=2400, covers=["call-accepted", "call-refused", "push-refused"]))
     # ---- totality of Token accessors
     TC = ["token", "no-token"]
     for n in ([1, 2, 3] if q else [1, 2, 3, 4]):
